@@ -387,7 +387,7 @@ M("c16-charat-raw-int", ["C04", "C16"], VM,
   "            idx = int(to_number(args[0])) if args else 0\n            if 0 <= idx < len(s):\n                return s[idx]\n            return \"\"",
   [("C04", "C04-R2", "charAt"), ("C16", "C16-R2", "charAt")])
 M("c18-floor-unguarded", ["C04", "C18"], CX,
-  "            if x != x or math.isinf(x):\n                return x\n            return math.floor(x)\n", "            return math.floor(x)\n",
+  "            if x != x or math.isinf(x) or x == 0:\n                return x  # NaN, the infinities and both zeros are their own floor\n            return js_number(math.floor(x))\n", "            return js_number(math.floor(x))\n",
   [("C04", "C04-R2", "floor_fn"), ("C18", "C18-R2", "floor_fn")])
 M("c17-array-length-unvalidated", ["C04", "C17"], CX,
   "                arr = JSArray(_array_length(args[0]))", "                arr = JSArray(int(args[0]))",
@@ -799,3 +799,26 @@ M("c18-tostring-host-spelling", ["C18"], VM,
 M("c01-counter-jumps", ["C01"], VM,
   "        self.instruction_count += 1\n", "        self.instruction_count += 1 + len(self.call_stack) // 64\n",
   [("C01", "C01-R2", "TimeLimitError")], note="non-unit step of the poll counter inside the limit check itself")
+M("c18-ceil-loses-negative-zero", ["C18"], CX,
+  "            result = math.ceil(x)\n            # Numbers in (-1, 0) round up to -0; a host int has no negative zero\n            return js_number(result) if result != 0 else -0.0\n",
+  "            return math.ceil(x)\n",
+  [("C18", "C18-R8", "ceil_fn")], note="fix d20b976 reverted for Math.ceil")
+M("c18-max-delegates-to-host", ["C18"], CX,
+  "            result = nums[0]\n            for n in nums:\n                if n != n:\n                    return n  # NaN if any argument is NaN\n                # +0 is larger than -0, which > and max() do not see\n                if n > result or (n == 0 and result == 0 and math.copysign(1, n) > 0):\n                    result = n\n            return result\n",
+  "            return max(nums)\n",
+  [("C18", "C18-R8", "max_fn")], note="fix d20b976 reverted for Math.max")
+M("c06-add-not-normalised", ["C06"], VM,
+  "        return js_number(to_number(a) + to_number(b))\n", "        return to_number(a) + to_number(b)\n",
+  [("C06", "C06-R5", "_add")], note="fix 17cfa3c reverted for +")
+M("c06-literal-not-normalised", ["C06"], LX,
+  "        return js_number(int(num_str))", "        return int(num_str)",
+  [("C06", "C06-R5", "_read_number")], note="fix 17cfa3c reverted for decimal literals")
+M("c16-trim-host-whitespace", ["C16"], VM,
+  "            return s.strip(_JS_WHITESPACE)\n", "            return s.strip()\n",
+  [("C16", "C16-R6", "trim")], note="fix 23541d6 reverted for trim")
+M("c17-includes-strict-only", ["C17"], VM,
+  "                if vm._strict_equals(elem, search) or (is_nan(elem) and is_nan(search)):\n", "                if vm._strict_equals(elem, search):\n",
+  [("C17", "C17-R13", "includes_fn")], note="fix d7ced48 reverted")
+T("t-c18-round-via-decimal-module-free", ["C18", "C04"], CX,
+  "            result = math.floor(x)\n            if x - result >= 0.5:\n                result += 1\n",
+  "            result = math.floor(x)\n            fraction = x - result\n            if fraction >= 0.5:\n                result = result + 1\n")
